@@ -10,6 +10,51 @@ import os
 REPO = os.environ.get("PYVC_REPO", "/repo")
 
 
+def _anon(node):
+    """dump of an expression / statement with every identifier blanked (a fingerprint that survives renames)"""
+    class A(ast.NodeTransformer):
+        def visit_Name(self, n):
+            return ast.copy_location(ast.Name(id="_", ctx=n.ctx), n)
+
+        def visit_arg(self, n):
+            return n
+    import copy
+    return ast.dump(A().visit(copy.deepcopy(node)), annotate_fields=False)
+
+
+def local_bindings(fn):
+    """[[name, fingerprint of the statement that first binds it], ...] in source order; [] when the function declares global/nonlocal names"""
+    params = {a.arg for a in fn.args.args + fn.args.kwonlyargs + fn.args.posonlyargs}
+    for extra in (fn.args.vararg, fn.args.kwarg):
+        if extra:
+            params.add(extra.arg)
+    stores, parent = [], {}
+    for n in ast.walk(fn):
+        for c in ast.iter_child_nodes(n):
+            parent[c] = n
+        if isinstance(n, (ast.Global, ast.Nonlocal)) or (isinstance(n, (ast.FunctionDef, ast.Lambda, ast.ClassDef)) and n is not fn):
+            return []
+    for n in ast.walk(fn):
+        if isinstance(n, ast.Name) and isinstance(n.ctx, ast.Store) and n.id not in params:
+            stores.append(n)
+    stores.sort(key=lambda n: (n.lineno, n.col_offset))
+    out, seen = [], set()
+    for n in stores:
+        if n.id in seen:
+            continue
+        seen.add(n.id)
+        st = n
+        while st in parent and not isinstance(st, ast.stmt):
+            st = parent[st]
+        # fingerprint: the binding statement without its nested bodies
+        if isinstance(st, (ast.For, ast.While, ast.If, ast.With, ast.Try)):
+            fp = type(st).__name__ + ":" + (_anon(st.iter) if isinstance(st, ast.For) else "")
+        else:
+            fp = _anon(st)
+        out.append([n.id, fp])
+    return out
+
+
 class NotFound(KeyError):
     """a function/class under contract does not exist in the tree under check"""
 
@@ -27,6 +72,7 @@ class Source:
                 self.mod[m] = ast.parse(src)
         for m, tree in self.mod.items():
             self._index(m, tree.body, prefix="")
+        self._canon_locals()
 
     def _index(self, m, body, prefix):
         for n in body:
@@ -36,6 +82,32 @@ class Source:
                 self._index(m, n.body, q + ".")
             elif isinstance(n, (ast.FunctionDef, ast.AsyncFunctionDef)):
                 self.functions.setdefault((m, prefix + n.name), []).append(n)
+
+    def _canon_locals(self):
+        """pure renames of local variables are undone: when a function has the same locals, bound at the same (name-free) sites, as when the
+        sidecars were written (contracts/local_names.json), its locals are renamed positionally to the names the sidecars use"""
+        import json
+        ref_path = os.path.join(os.path.dirname(os.path.dirname(os.path.abspath(__file__))), "contracts", "local_names.json")
+        self.renamed = {}
+        if not os.path.exists(ref_path):
+            return
+        ref = json.load(open(ref_path))
+        for (m, q), fns in self.functions.items():
+            for k, fn in enumerate(fns):
+                want = ref.get(f"{m}:{q}#{k}")
+                if not want:
+                    continue
+                have = local_bindings(fn)
+                if len(have) != len(want) or [h[1] for h in have] != [w[1] for w in want] or [h[0] for h in have] == [w[0] for w in want]:
+                    continue
+                mapping = {h[0]: w[0] for h, w in zip(have, want)}
+                others = {n.id for n in ast.walk(fn) if isinstance(n, ast.Name)} - set(mapping)
+                if set(mapping.values()) & others:
+                    continue          # a reference name is used for something else now: leave the function alone
+                for n in ast.walk(fn):
+                    if isinstance(n, ast.Name) and n.id in mapping:
+                        n.id = mapping[n.id]
+                self.renamed[f"{m}.{q}"] = {a: b for a, b in mapping.items() if a != b}
 
     # ---- lookup
     def cls(self, module, name):
